@@ -72,6 +72,8 @@ def judge(mode, out, parser, rendered, ntoks_total, all_read):
         return "accepted" if out else "rejected"
     # ---------------- oracle
     toks, lexerr = P.ref_tokens(rendered)
+    if mode == "c18":
+        return judge18(out, parser, rendered, toks, lexerr)
     if lexerr is not None:
         if out is True:
             raise Violation("C01/accepts-invalid/LEXICAL/%s" % lexerr.why.split(" at ")[0],
@@ -170,6 +172,36 @@ def _culprit(tree):
     """innermost-last command name of the script: a stable, narrow label for signatures"""
     ns = [n for n in _names(tree) if n != "require"]
     return ns[-1] if ns else "require"
+
+
+def judge18(out, parser, rendered, toks, lexerr):
+    """C18, second sentence: a reported position is never before the first offending token."""
+    if out is not False:
+        return "accepted"
+    if lexerr is not None:
+        bad = lexerr.offset
+        why = "lexical"
+    else:
+        res = ref_sieve.check(toks)
+        if res.taints:
+            raise Skip("outside the claim: " + ",".join(res.taints))
+        if res.status != "reject":
+            return "rejected-at-end"
+        bad = toks[res.pos][2]
+        why = res.reason.split("/")[0]
+    line, col = parser.error_pos[0], parser.error_pos[1]
+    starts = [0]
+    for i, b in enumerate(rendered):
+        if b == 10:
+            starts.append(i + 1)
+    if not (1 <= line <= len(starts)):
+        raise Violation("C18/position-outside-input", {"script": _txt(rendered), "error_pos": list(parser.error_pos)})
+    off = starts[line - 1] + col - 1
+    if off < bad:
+        raise Violation("C18/position-before-offender/%s" % why,
+                        {"script": _txt(rendered), "error": parser.error, "error_pos": list(parser.error_pos),
+                         "reported_offset": off, "first_offending_offset": bad})
+    return "rejected/%s" % why
 
 
 def _first_diff(got, want):
